@@ -2,7 +2,9 @@
    Statements only; proofs are in Html/HtmlToNodesProofs.v and Html/OptReadProofs.v. *)
 From Coq Require Import List NArith Bool Arith.
 From MV Require Import Base.PyStr Base.Res Html.HtmlTypes Gen.Html Gen.HtmlNodes Html.HtmlModel
-  Html.HtmlToNodes Html.HtmlToNodesProofs Html.OptRead Html.OptReadProofs.
+  Html.HtmlStore Html.HtmlInv Html.HtmlRound Html.HtmlOps
+  Html.HtmlToNodes Html.HtmlToNodesProofs Html.OptRead Html.OptReadProofs Html.HtmlIso Html.HtmlToNodesTotal
+  Html.HtmlAdmonition Html.OptExtract.
 Import ListNotations.
 
 (* Pass-through.  For every html.parser behaviour [parse], every text and every combination of
@@ -40,6 +42,70 @@ Theorem C17_gfm_filter_neutralises : forall (text : str),
   /\ Neutral text (gfm_filter text).
 Proof. exact gfm_filter_neutralises. Qed.
 Print Assumptions C17_gfm_filter_neutralises.
+
+(* Which characters the case-insensitive match of RE_FLOW covers (computed from `re` by the
+   translator, pinned here): every tag letter matches its two ASCII cases; in addition 'i' matches
+   U+0130 / U+0131 and 's' matches U+017F.  So the filter also rewrites e.g. "<ſcript>", which is
+   not a tag opener for an HTML parser (tag names are matched ASCII case-insensitively): such
+   extra replacements only turn a literal '<' into "&lt;" (Neutral above), and the no-opener
+   statement above is about the HTML notion (ASCII case-insensitive). *)
+Theorem C17_gfm_casefold : Forall (fun l => flow_ci l = spec_ci l) (concat flow_tags).
+Proof. exact casefold_classes. Qed.
+Print Assumptions C17_gfm_casefold.
+
+(* Un-filtering: rewriting every "&lt;" that is followed by what RE_FLOW matches after '<' back to
+   '<' undoes the filter; on a text that holds no such escaped opener of its own it gives back the
+   text exactly. *)
+Theorem C17_gfm_unfilter : forall (text : str),
+  unfilter (gfm_filter text) = unfilter text
+  /\ (no_esc text = true -> unfilter (gfm_filter text) = text).
+Proof. exact gfm_unfilter. Qed.
+Print Assumptions C17_gfm_unfilter.
+
+(* No exception leaves html_to_nodes after its try block: the conversion of img /
+   div.admonition elements (strip copy, title and body rendering) is total. *)
+Theorem C17_no_escape : forall (parse : str -> list event) (gfm img adm : bool) (text : str) (e : exn),
+  html_to_nodes parse gfm img adm text <> OEscapes e.
+Proof. exact no_escape. Qed.
+Print Assumptions C17_no_escape.
+
+(* <div class="admonition ..."> = {admonition} directive.  For any element of a consistent store
+   that represents the syntax tree <n a>ch</n>, run_directive receives spec_admonition a ch:
+   name "admonition"; first line = the inner HTML of the first non-blank child when it is a div / p
+   with class title or admonition-title, else "Note"; content = the option lines (class, name)
+   right-stripped, a blank line, and the left-stripped body in which every <p> is replaced by its
+   inner HTML followed by a blank line and everything else is carried over as its own source text -
+   i.e. exactly the text of the Markdown spelling  ```{admonition} title / :class: .. / blank / body. *)
+Theorem C17_admonition_directive : forall (st : store) (el : nat) (nm : str) (a : attrs) (ch : list html),
+  good st -> cells_ok st -> Repr st el (HElem nm a ch) ->
+  admonition_directive st el = Ok (spec_admonition a ch).
+Proof. exact admonition_spec. Qed.
+Print Assumptions C17_admonition_directive.
+
+(* End to end, under the html.parser oracle: a well-formed block whose non-blank top-level nodes
+   are all <div class="... admonition ..."> elements yields, with html_admonition enabled, exactly
+   the list of these directives. *)
+Theorem C17_admonition_equiv : forall (parse : str -> list event),
+  (forall hs, wf_doc hs = true -> parse (print_doc hs) = events_doc hs) ->
+  forall (hs : list html), wf_doc hs = true ->
+  let kept := filter (fun h => negb (ws_html h)) hs in
+  kept <> [] -> forallb is_admonition_html kept = true ->
+  html_to_nodes parse false false true (print_doc hs)
+  = ODirectives (map (fun h => spec_admonition (h_attrs h) (h_children h)) kept).
+Proof. exact admonition_equiv. Qed.
+Print Assumptions C17_admonition_equiv.
+
+(* The strip-':' step of _parse_directive_options on what html_to_nodes writes: for option lines
+   ":y1" .. ":yn" without line breaks, followed by nothing or by a blank line and any body, the
+   extracted option block is y1 .. yn joined by newlines; for an <img> this is yaml_block, which
+   C17_option_values_carried reads back as the attribute values. *)
+Theorem C17_option_block_extracted : forall (kvs : attrs),
+  kvs <> [] -> Forall (fun kv => wf_key (fst kv) = true) kvs ->
+  (exists rest, extract_options (join [10%N] (map (fun kv => [58%N] ++ yaml_line kv) kvs)) = Some (yaml_block kvs, rest))
+  /\ forall body, exists rest,
+       extract_options (block_text (map yaml_line kvs) ++ 10%N :: 10%N :: body) = Some (yaml_block kvs, rest).
+Proof. exact option_block_extracted. Qed.
+Print Assumptions C17_option_block_extracted.
 
 (* <img> = {image} directive, for every attribute dictionary with a src value, without any
    restriction on the attribute values (after the repair: values that are not plain-safe are
